@@ -527,9 +527,17 @@ pub mod t {
     use super::*;
     stubs!(step_size_v2_e2, 4, step_size::<2, 2>());
     stubs!(base_v3_e4, 6, base::<3, 4>());
+    stubs!(exit_v4_e4, 6, exit::<4, 4>());
+}
+/// documented attempts, in no tier. step (3,4): CBMC reports "one expansion step per iteration" after
+/// 1480 s with a counterexample (reverse search, popped vertex without incident edges, iteration
+/// counter 2^20 - 1) that does NOT reproduce natively - the recorded words pass on the real loop body
+/// for every queue choice; an artefact of the encoding at this size, not a property violation
+/// (DESIGN 9.4). step (4,4): no verdict within 5400 s.
+pub mod ta {
+    use super::*;
     stubs!(step_v3_e4, 6, step::<3, 4>());
     stubs!(step_v4_e4, 6, step::<4, 4>());
-    stubs!(exit_v4_e4, 6, exit::<4, 4>());
 }
 
 
@@ -728,11 +736,11 @@ pub mod dj {
 pub mod djt {
     use super::*;
     stubs!(base_dijkstra_v3_e3, 5, base_dijkstra::<3, 3>());
-    stubs!(step_dijkstra_v3_e3, 5, step_dijkstra::<3, 3>());
 }
 /// documented attempts, in no tier: the fixpoint lemma at three vertices (a chain of floating-point
-/// minima) did not return in 2400 s
+/// minima) did not return in 2400 s; the Dijkstra step at (3,3) did not return in 5000 s
 pub mod dja {
     use super::*;
     stubs!(bf_fixpoint_v3_e3, 5, bf_fixpoint::<3, 3>());
+    stubs!(step_dijkstra_v3_e3, 5, step_dijkstra::<3, 3>());
 }
